@@ -10,7 +10,8 @@ store input, query answer, subscriber fan-out per subscriber) is either `clone` 
 the whole reachable tree, payloads copied) or `share` (the same root is handed out).
 
 The classification of the real ports (the port table below) is NOT proved here: it is established
-dynamically by `harness/cmd/drive-alias` (reflection walk over the real Go values handed out by
+dynamically (rows of consensus, parsigex and the broadcaster excepted: they marshal to the wire and are
+listed only so that the wiring graph is covered) by `harness/cmd/drive-alias` (reflection walk over the real Go values handed out by
 the real components), which executes the same op stream as this model and is diffed per op.
 
 Trees are forests in first-child / next-sibling form (`node cell kids sibs`), so a value with
@@ -196,12 +197,14 @@ structure Fixes where
   awaitContribClone : Bool := false
   /-- fixes/C18-scheduler-clone-resolved.diff (scheduler keeps the slice the beacon client returned) -/
   schedResolveClone : Bool := false
+  /-- D-8 (property C20 owns the fix): the eth2wrap duties cache clones what it files and what it answers -/
+  cacheClone : Bool := false
 deriving DecidableEq, Repr
 
 /-- the tree as it is. FLIP the switches of the patches that have been applied to /repo. -/
-def implFixes : Fixes := {}
+def implFixes : Fixes := { awaitAttClone := true, awaitProClone := true, awaitContribClone := true, schedResolveClone := true }  -- applied in /repo: 0823825, 4f5804c
 
-def allFixes : Fixes := ⟨true, true, true, true⟩
+def allFixes : Fixes := ⟨true, true, true, true, true⟩
 
 def modeIf (b : Bool) : Mode := if b then .clone else .share
 
@@ -209,6 +212,15 @@ def portTable (fx : Fixes) : List (String × String × Mode) := [
   -- every Clone() method of package core (all UnsignedData / SignedData / DutyDefinition
   -- implementations × versions, ParSignedData and the four set types)
   ("core", "Clone", .clone),
+  -- eth2wrap duties cache (not a parameter of Wire: it is the beacon client of the scheduler and of
+  -- validatorapi in production): files shallow copies of the beacon node's answer, answers every caller
+  -- with fresh duty structs that carry the filed index slices and the filed metadata map
+  ("cache", "fetchSyncDuties", modeIf fx.cacheClone),
+  ("cache", "fetchAttesterDuties", .clone),
+  ("cache", "fetchProposerDuties", .clone),
+  ("cache", "SyncCommDutiesCache", modeIf fx.cacheClone),
+  ("cache", "AttesterDutiesCache", modeIf fx.cacheClone),
+  ("cache", "ProposerDutiesCache", modeIf fx.cacheClone),
   -- scheduler
   -- input from the beacon client (eth2wrap duties cache): the duty structs are copied by value …
   ("sched", "resolveAttDuties", .clone),          -- … AttesterDuty has no nested reference
@@ -235,7 +247,12 @@ def portTable (fx : Fixes) : List (String × String × Mode) := [
   ("dutyDB", "AwaitAggAttestation", .clone),      -- value.Clone() before returning
   ("dutyDB", "PubKeyByAttestation", .clone),      -- returns a string (immutable)
   -- validatorapi
-  ("vapi", "RegisterAwaitProposal", .clone),      -- see `vapiWritesProposal`: vapi.Proposal writes into the answer it got
+  -- Register* rows: the registering component calls the registered query inside one request and passes
+  -- the answer on to exactly one receiver (the validator client) without keeping it: no second holder
+  -- arises at this end; the hand-off that matters is the queried store's row (dutyDB.Await*, aggSigDB.Await).
+  -- validatorapi.Proposal additionally WRITES into the answer it got (ConsensusValue, ExecutionValue):
+  -- harmless iff dutyDB.AwaitProposal clones (driver op `passw`).
+  ("vapi", "RegisterAwaitProposal", .clone),
   ("vapi", "RegisterAwaitAttestation", .clone),
   ("vapi", "RegisterAwaitSyncContribution", .clone),
   ("vapi", "RegisterGetDutyDefinition", .clone),
